@@ -393,7 +393,7 @@ def run_debouncer(ctx, res: Result):
         for s in ds.explore(lambda ch: _deb_explore(base, ch), preemption_bound=bound, max_runs=cap):
             batch.add(base, s, s._c18_info)
         batch.flush()
-    n_prog = 1200 if ctx.thorough else 260
+    n_prog = 1500 if ctx.thorough else 600
     for i in range(n_prog):
         interval = rng.choice([0, 0, 1, 2, 2, 3])
         case = {"kind": "deb", "interval": interval, "clients": deb_program(rng, interval, rng.choice([1, 2, 2, 3]))}
@@ -572,16 +572,303 @@ def rs_oracle(case, s, table):
     return bad
 
 
+RS_DIRECTED = [
+    # child 0 exits by itself at 0.5 s; an event arrives at 0.5 s: self-exit restart races event restart
+    {"kind": "restart", "interval": 0, "restart_on_exit": True,
+     "children": [{"self_exit": 2, "on_signal": "now"}] + [{"self_exit": None, "on_signal": "now"}] * 5,
+     "ev": [["sleep", 2], ["ev"]], "main": [["start"], ["sleep", 8], ["stop"]]},
+    # an event restart is waiting for a slow child when stop() is called
+    {"kind": "restart", "interval": 0, "restart_on_exit": False,
+     "children": [{"self_exit": None, "on_signal": 2}] + [{"self_exit": None, "on_signal": "now"}] * 5,
+     "ev": [["ev"]], "main": [["start"], ["stop"]]},
+    # debounced: two batches, a child that ignores the signal (SIGKILL path), then stop
+    {"kind": "restart", "interval": 2, "restart_on_exit": True,
+     "children": [{"self_exit": None, "on_signal": "never"}] + [{"self_exit": None, "on_signal": "now"}] * 5,
+     "ev": [["ev"], ["sleep", 1], ["ev"], ["sleep", 8], ["ev"]], "main": [["start"], ["sleep", 16], ["stop"]]},
+]
+
+
+def rs_signature(law):
+    key = {"two children alive at a time": "two-children",
+           "a child is alive when stop() returns": "child-alive-after-stop",
+           "a child is started after stop() returned": "spawn-after-stop",
+           "a helper thread is alive when stop() returns": "helper-thread-alive-after-stop"}.get(law, law[:50])
+    return {"component": "AutoRestartTrick", "law": key}
+
+
+def rs_add(res, case, s, table, tick):
+    res.evaluations += 1
+    choices = [c for _, c in s.choices]
+    full = dict(case, choices=choices)
+    dead_names = set(s.alive_after)
+    for law, obs, exp in rs_oracle(case, s, table):
+        if law.startswith("uncaught exception in thread ") and law.split()[-1] in dead_names:
+            continue      # raised by the scheduler's tear-down of a thread that was still alive at the end
+        if law.startswith("no child is running") and tick:
+            continue      # needs the watcher to have had its turn: only judged on schedules without forced ticks
+        res.failures.append(Failure(what="AutoRestartTrick: " + law, case=full, signature=rs_signature(law),
+                                    observed=obs, expected=exp))
+    n_ev = len([1 for op in case["ev"] if op[0] == "ev"])
+    if n_ev and (any(op[0] == "stop" for op in case["main"]) or case["restart_on_exit"]):
+        res.nontrivial.add(core.digest(["rs", case["interval"], case["restart_on_exit"], case["ev"], case["main"],
+                                        case["children"], choices]))
+    res.hist("restart_spawns", len([1 for e in table.log if e[0] == "Spawn"]))
+    res.hist("restart_interval", case["interval"])
+    res.hist("restart_max_alive", table.max_alive)
+    if len([1 for x in res.samples if isinstance(x, dict) and x.get("part") == "restart"]) < 2 and len(table.log) >= 4:
+        res.samples.append({"part": "restart", "case": {k: case[k] for k in ("interval", "restart_on_exit", "ev", "main")},
+                            "children": case["children"][:3],
+                            "process_log": [f"{k} {pid} t={units(t)} {x}" for k, pid, t, _, x in table.log][:12],
+                            "history": [" ".join(map(str, e[:-1])) for e in s.events][:8]})
+
+
+def rs_sequential(ctx, res):
+    """Outcome-level correspondence with the extracted Restart model on non-overlapping operation sequences."""
+    from harness import detsched as ds
+    from harness import procsim
+    from watchdog.events import FileModifiedEvent
+    import watchdog.tricks as tricks
+    rng = ctx.rng("rs-seq")
+    cases, impls, metas = [], [], []
+    for i in range(120 if ctx.thorough else 30):
+        roe = rng.random() < 0.6
+        ops = [rng.choice(["ev", "ev", "selfexit", "ev"]) for _ in range(rng.randint(1, 4))]
+        if rng.random() < 0.7:
+            ops.append("stop")
+        s = new_sched(ds.FirstChooser(), max_steps=6000)
+        table = procsim.ProcTable(s, [])
+        undo = procsim.install(table)
+        out = {}
+        try:
+            trick = tricks.AutoRestartTrick(["cmd"], restart_on_command_exit=roe, kill_after=KILL_AFTER)
+
+            def main():
+                trick.start()
+                for op in ops:
+                    if op == "ev":
+                        trick.on_any_event(FileModifiedEvent("x"))
+                    elif op == "selfexit":
+                        table.procs[-1]._die_at(s.clock, "self")
+                    elif op == "stop":
+                        trick.stop()
+                        out["returned"] = True
+                    ds._sleep(2 * UNIT)
+                out["alive"] = len(table.alive())
+            s.spawn("main", main)
+            s.run()
+        finally:
+            undo()
+        # model labels
+        items, cur, alive, watcher = [], 0, True, 0
+        stopped = False
+        for op in ops:
+            if op == "ev":
+                items.append(Atom("G")); items.append(Atom("Tstar"))
+                if not stopped:
+                    if alive:
+                        items += [[Atom("X"), cur], Atom("Tstar")]
+                    cur += 1
+                    alive = True
+            elif op == "selfexit":
+                if alive:
+                    items.append([Atom("X"), cur])
+                    alive = False
+                    if roe and not stopped:
+                        items.append([Atom("Wstar"), cur])
+                        cur += 1
+                        alive = True
+            elif op == "stop":
+                items += [Atom("C"), Atom("Mstar")]
+                if alive:
+                    items += [[Atom("X"), cur], Atom("Mstar")]
+                    alive = False
+                if roe:
+                    items += [[Atom("Wstar"), cur], Atom("Mstar")]
+                stopped = True
+        spawns = len([1 for e in table.log if e[0] == "Spawn"])
+        cases.append(sx([1, roe, int(KILL_AFTER / UNIT), items]))
+        impls.append([str(spawns), str(out.get("alive")), str(table.max_alive), "1" if out.get("returned") else "0"])
+        metas.append({"kind": "restart-sequential", "restart_on_exit": roe, "ops": ops})
+        res.evaluations += 1
+        res.hist("restart_seq_ops", len(ops))
+        if len(ops) >= 2:
+            res.nontrivial.add(core.digest(["rs-seq", roe, ops]))
+        if s.deadlock or s.uncaught():
+            res.failures.append(Failure(what="AutoRestartTrick: sequential scenario deadlocks or raises",
+                                        case=metas[-1], signature={"component": "AutoRestartTrick", "law": "sequential"},
+                                        observed=str(s.deadlock or s.uncaught())))
+    outs = core.run_model("restart", cases)
+    for c, o, im, me in zip(cases, outs, impls, metas):
+        res.traces_validated += 1
+        if not (isinstance(o, list) and o and o[0] == "ok" and o[1:5] == im):
+            res.mismatches.append(Mismatch(pair="AutoRestartTrick sequential outcome (spawns, alive, max alive, stop returned)",
+                                           case=me, model=str(o), impl=str(im)))
+
+
+def run_restart(ctx, res: Result):
+    from harness import detsched as ds
+    rng = ctx.rng("restart")
+    directed = [c for c in ctx.corpus() if c.get("kind") == "restart"] + RS_DIRECTED
+    for case in directed:
+        base = {k: case[k] for k in ("kind", "interval", "restart_on_exit", "children", "ev", "main")}
+        if case.get("choices"):
+            s, table = rs_run(base, ds.ReplayChooser(case["choices"]))
+            rs_add(res, base, s, table, True)
+        for j in range(600 if ctx.thorough else 200):
+            tick = rng.choice([0.0, 0.3])
+            s, table = rs_run(base, ds.RandomChooser(rng.randrange(1 << 30), switch_prob=0.4, tick_prob=tick))
+            rs_add(res, base, s, table, tick > 0)
+        if ctx.thorough:
+            def once(ch, base=base):
+                s, table = rs_run(base, ch)
+                s._c18_table = table
+                return s
+            for s in ds.explore(once, preemption_bound=2, max_runs=1500):
+                rs_add(res, base, s, s._c18_table, False)
+    for i in range(2500 if ctx.thorough else 600):
+        case = rs_program(rng)
+        for j in range(2):
+            tick = rng.choice([0.0, 0.0, 0.2])
+            s, table = rs_run(case, ds.RandomChooser(rng.randrange(1 << 30), switch_prob=rng.choice([0.2, 0.5]), tick_prob=tick))
+            rs_add(res, case, s, table, tick > 0)
+    rs_sequential(ctx, res)
+
+
+# ====================================================================== part 3: ShellCommandTrick
+def sh_program(rng):
+    wait = rng.random() < 0.4
+    drop = rng.random() < 0.6 if wait else True
+    ops = []
+    for _ in range(rng.randint(1, 4)):
+        ops.append(["ev"])
+        if rng.random() < 0.7:
+            ops.append(["sleep", rng.choice([0, 1, 2, 3])])
+    children = [{"self_exit": rng.choice([1, 2, 3, 5]), "on_signal": "now"} for _ in range(5)]
+    return {"kind": "shell", "wait": wait, "drop": drop, "ops": ops, "children": children}
+
+
+def sh_run(case, chooser):
+    from harness import detsched as ds
+    from harness import procsim
+    from watchdog.events import FileModifiedEvent
+    import watchdog.tricks as tricks
+    s = new_sched(chooser, max_steps=4000)
+    table = procsim.ProcTable(s, [{"self_exit": c["self_exit"] * UNIT, "on_signal": "now"} for c in case["children"]])
+    undo = procsim.install(table)
+    try:
+        trick = tricks.ShellCommandTrick("cmd ${watch_src_path}", wait_for_process=case["wait"],
+                                         drop_during_process=case["drop"])
+
+        def dispatcher():
+            for op in case["ops"]:
+                if op[0] == "ev":
+                    s.log("ev-call", s.clock, len(s.trace))
+                    trick.on_any_event(FileModifiedEvent("x"))
+                    s.log("ev-ret", s.clock, len(s.trace))
+                else:
+                    ds._sleep(op[1] * UNIT)
+            ds._sleep(8 * UNIT)
+        s.spawn("obs", dispatcher)
+        s.run()
+    finally:
+        undo()
+    return s, table
+
+
+def sh_oracle(case, s, table):
+    bad = []
+    if case["wait"] or case["drop"]:
+        for kind, pid, t, step, alive in table.log:
+            if kind == "Spawn" and len(alive) > 1:
+                bad.append(("commands overlap although wait_for_process/drop_during_process is set",
+                            {"spawned": pid, "running": alive, "at": units(t)}, "at most one command running"))
+                break
+    if s.deadlock is not None:
+        bad.append(("deadlock", [list(x) for x in s.deadlock.blocked], "no deadlock"))
+    n_ev = len([1 for e in s.events if e[1] == "ev-ret"])
+    n_sp = len([1 for e in table.log if e[0] == "Spawn"])
+    if not case["drop"] and n_sp != n_ev and s.deadlock is None:
+        bad.append(("without drop_during_process every event runs the command", {"events": n_ev, "spawns": n_sp}, "equal"))
+    dead = set(s.alive_after)
+    for n, e in s.uncaught():
+        if n not in dead:
+            bad.append(("uncaught exception in thread " + n, repr(e), "none"))
+    return bad
+
+
+def sh_model_case(case, s, table):
+    """Label sequence for the extracted model when the run is 'paced' (no exit within 0.2 s before an event): else None."""
+    evs = [units(e[2]) for e in s.events if e[1] == "ev-call"]
+    items, exited = [], set()
+    n_spawned = 0
+    spawn_times = {p.pid - 100: (units(p.spawn_time), None if p.exit_time is None else (p.exit_time - T0) / UNIT) for p in table.procs}
+    k = 0
+    for t in evs:
+        # children that died clearly before this event: Exit + watcher discards itself (drop mode without wait)
+        for c, (st, et) in sorted(spawn_times.items()):
+            if c < n_spawned and c not in exited and et is not None:
+                if et <= t - 1:
+                    items.append([Atom("X"), c])
+                    if not case["wait"]:
+                        items.append([Atom("W"), c])
+                    else:
+                        items.append(Atom("D"))
+                    exited.add(c)
+                elif et <= t + 0.01:
+                    return None            # too close to call: exit within one poll period of the event
+        items.append(Atom("E"))
+        n_spawned = len([1 for c, (st, et) in spawn_times.items() if st <= t and (c < n_spawned or st == t)])
+        n_spawned = max(n_spawned, len([1 for c, (st, _) in spawn_times.items() if st < t or (st == t)]))
+    return items
+
+
+def run_shell(ctx, res: Result):
+    from harness import detsched as ds
+    rng = ctx.rng("shell")
+    rows = []
+    for i in range(1500 if ctx.thorough else 400):
+        case = sh_program(rng)
+        s, table = sh_run(case, ds.RandomChooser(rng.randrange(1 << 30), switch_prob=0.4, tick_prob=rng.choice([0.0, 0.2])))
+        res.evaluations += 1
+        full = dict(case, choices=[c for _, c in s.choices])
+        for law, obs, exp in sh_oracle(case, s, table):
+            res.failures.append(Failure(what="ShellCommandTrick: " + law, case=full,
+                                        signature={"component": "ShellCommandTrick", "law": law[:50]}, observed=obs, expected=exp))
+        n_sp = len([1 for e in table.log if e[0] == "Spawn"])
+        n_ev = len([1 for op in case["ops"] if op[0] == "ev"])
+        if n_ev >= 2:
+            res.nontrivial.add(core.digest(["sh", case["wait"], case["drop"], case["ops"], case["children"][:n_ev]]))
+        res.hist("shell_mode", f"wait={int(case['wait'])} drop={int(case['drop'])}")
+        res.hist("shell_spawns_of_events", f"{n_sp}/{n_ev}")
+        if not case["wait"] or True:
+            items = sh_model_case(case, s, table) if s.choices and not any(c == "<tick>" for _, c in s.choices) else None
+            if items is not None:
+                rows.append((full, sx([case["wait"], case["drop"], items]), n_sp, n_ev - n_sp, table.max_alive))
+    outs = core.run_model("shelltrick", [r[1] for r in rows])
+    for (full, wire, n_sp, n_drop, mx), o in zip(rows, outs):
+        res.traces_validated += 1
+        impl = [str(n_sp), str(n_drop), str(mx)]
+        if not (isinstance(o, list) and o and o[0] == "ok" and o[1:4] == impl):
+            res.mismatches.append(Mismatch(pair="ShellCommandTrick paced outcome (started, dropped, max running)",
+                                           case=full, model=str(o) + " on " + wire, impl=str(impl)))
+
+
 # ====================================================================== driver entry points
 def run(ctx) -> Result:
     from harness import detsched as ds
     ds.install()
+    import logging
+    logging.disable(logging.CRITICAL)      # the tricks log exceptions of racing threads; the oracle sees their effects
     res = Result()
     res.rule = ("debouncer: client scripts (start/handle_event/sleep/stop/join, 1-3 client threads, interval 0-3 units of "
                 "0.25 s) x schedules (seeded random; bounded-pre-emption enumeration for the fixed programs); distinct = "
                 "(program, schedule); non-trivial = at least one event and (a stop or a second event)")
     run_debouncer(ctx, res)
-    res.failures.sort(key=lambda f: (0 if "deadlock" in f.what else 1,
+    run_restart(ctx, res)
+    run_shell(ctx, res)
+    res.rule += ("; restart: (options, child behaviours, observer script, main script with stop) x schedules, non-trivial = "
+                 ">= 1 event and (a stop or restart-on-exit); shell: (options, event script, child life times), non-trivial = >= 2 events")
+    res.failures.sort(key=lambda f: (0 if f.what == "EventDebouncer: deadlock" else 1 if "deadlock" in f.what else 2,
                                      len(json.dumps(f.case.get("clients", []))) if isinstance(f.case, dict) else 0,
                                      len(f.case.get("choices", [])) if isinstance(f.case, dict) else 0))
     return res
@@ -590,9 +877,29 @@ def run(ctx) -> Result:
 def replay(ctx, obj) -> int:
     from harness import detsched as ds
     ds.install()
+    import logging
+    logging.disable(logging.CRITICAL)
     case = obj.get("case", obj)
     print("replay case:", json.dumps(case)[:600])
     rc = 0
+    if case.get("kind") == "restart":
+        base = {k: case[k] for k in ("kind", "interval", "restart_on_exit", "children", "ev", "main")}
+        s, table = rs_run(base, ds.ReplayChooser(case.get("choices", [])))
+        for e in table.log:
+            print("  process table:", e[0], e[1], "t=%d" % units(e[2]), e[4])
+        for e in s.events:
+            print("  event", e)
+        for law, obs, exp in rs_oracle(base, s, table):
+            print("FAIL: AutoRestartTrick:", law, "| observed:", str(obs)[:600], "| expected:", exp)
+            rc = 1
+    if case.get("kind") == "shell":
+        base = {k: case[k] for k in ("kind", "wait", "drop", "ops", "children")}
+        s, table = sh_run(base, ds.ReplayChooser(case.get("choices", [])))
+        for e in table.log:
+            print("  process table:", e[0], e[1], "t=%d" % units(e[2]), e[4])
+        for law, obs, exp in sh_oracle(base, s, table):
+            print("FAIL: ShellCommandTrick:", law, "| observed:", obs, "| expected:", exp)
+            rc = 1
     if case.get("kind") == "deb":
         base = {k: case[k] for k in ("kind", "interval", "clients")}
         s, info = deb_run(base, ds.ReplayChooser(case.get("choices", [])))
